@@ -100,6 +100,9 @@ func TestDrive(t *testing.T) {
 	case "scope":
 		e.Exec = safely(func(op string) string { return execPure(strings.Split(op, "\t")) })
 		ScopeCases(e, r, tier)
+	case "audience":
+		e.Exec = safely(func(op string) string { return execPure(strings.Split(op, "\t")) })
+		AudienceCases(e, r, tier)
 	case "hist":
 		nh := envInt("FZ_HISTORIES", 40)
 		if tier == "thorough" {
@@ -125,6 +128,8 @@ func execPure(f []string) string {
 	switch f[0] {
 	case "scope":
 		return execScope(f)
+	case "audience":
+		return execAudience(f)
 	}
 	return "bad-op"
 }
